@@ -156,6 +156,26 @@ def stage_oracle(ctx: Ctx):
                         child_src = ex
                 except SyntaxError:
                     child_src = ex
+            # the replacement arrives with its own parentheses and line breaks inside them: after a plain comment, after a comment that ends in a backslash
+            # (NOT a line continuation), before a trailing attribute access
+            child_layout = rng.choice(['asis', 'asis', 'par_nl', 'par_cmt', 'par_cmt_bs', 'par_tail_bs']) if not pattern else 'asis'
+            if child_layout != 'asis' and ' ' in ex and layout != 'multiline':
+                sep = {'par_nl': ' \n        ', 'par_cmt': '  # c\n        ', 'par_cmt_bs': '  # see C:\\tmp\\\n        ', 'par_tail_bs': ' '}[child_layout]
+                cand = '(' + ex.replace(' ', sep, 1) + ')' if child_layout != 'par_tail_bs' else '(' + ex + '  # c \\\n        )'
+                try:
+                    if canon(S.parse_child(kind, cand, pattern)) == canon(S.parse_child(kind, ex, pattern)):
+                        child_src = cand
+                except SyntaxError:
+                    pass
+            if not pattern and kind in ('Attribute', 'Call', 'Subscript') and layout != 'multiline' and rng.random() < 0.7:
+                # the line break sits in the TAIL of the node (after its last child), behind a comment ending in a backslash
+                tail_at = {'Attribute': '.', 'Call': '(', 'Subscript': '['}[kind]
+                cand = '(' + ex.replace(tail_at, '  # c \\\n        ' + tail_at, 1) + ')'
+                try:
+                    if canon(S.parse_child(kind, cand, pattern)) == canon(S.parse_child(kind, ex, pattern)):
+                        child_src = cand
+                except SyntaxError:
+                    pass
             try:
                 want_child = S.parse_child(kind, child_src, pattern)
             except SyntaxError:
@@ -179,6 +199,8 @@ def stage_oracle(ctx: Ctx):
                 ctx.extra['refused'][k] = ctx.extra['refused'].get(k, 0) + 1
                 continue
             ctx.tick((p, f, kind, child_src, layout, form), 'put:' + layout)
+            if child_src.startswith('(') and '\n' in child_src:
+                ctx.dist['put:child-own-pars-multiline'] = ctx.dist.get('put:child-own-pars-multiline', 0) + 1
             try:
                 re = ast.parse(root.src)
                 got = S.hole(re, path)
